@@ -24,7 +24,9 @@
                      exactly once) and equals ctx.sql; with the hook present additionally: every partition passed the counter
                      exactly once, in the forced order, and the NULL-extended rows of one side all sit in the partition that
                      incremented last.
-  kind "sql"   : one generated statement under layouts × thread counts × per-partition execution (meta mode of sqlgen).
+  kind "sql"   : one generated statement under layouts × thread counts × per-partition execution (meta mode of sqlgen); stratum
+                 `s:aggcut`: hand-written aggregate statements over one small table with NULL runs, as one batch and re-cut into
+                 1,2,3,5,6,7,10,12 batches under 1 and 4 rayon threads (partial-aggregation merge, C07_merge_order).
                  O = no panic, "succeeds in one configuration ⇒ succeeds in all", and every configuration gives the same
                      answer up to the freedom `Spec.sameAnswer` leaves.  No executable reference (tables are ≥1000 rows; the
                      naive reference semantics is quadratic) — K = O.
@@ -358,7 +360,7 @@ def handleSql (c i : Json) : Except String Driver.Verdict := do
   let tags := ["sql", if multiScan then "sql:multi" else "sql:single", if declMax ≥ 2 then "sql:root_multi" else "sql:root_single", if sig then "sql:subplan" else "sql:plain",
                Driver.SQL.topShape cs.plan, if errs.isEmpty then "sql:answered" else "sql:err"]
               ++ cs.tags ++ diffTags ++ (if nonEmpty then [] else ["empty_result"])
-  pure { model := Json.null, k := ofail.isNone, oracle := ofail, nt := oks.length ≥ 2 && multiScan && nonEmpty,
+  pure { model := Json.null, k := ofail.isNone, oracle := ofail, nt := oks.length ≥ 2 && (multiScan || cs.tags.contains "s:aggcut") && nonEmpty,
          tags := tags, attr := attr }
 
 def handler : Driver.Handler := fun c i => do
